@@ -78,6 +78,28 @@ def opsItv (op : String) (ins outs : List String) : Option String :=
       | some _, none => some "FAIL impl-bound-not-a-number"
       | _, _ => none
     | _, _ => none
+  | "div2" =>
+    match ins, outs with
+    | [x, y], [o1, o2] => do
+      let x ← parseItv x; let y ← parseItv y
+      match parseItv o1, parseItv o2 with
+      | some o1, some o2 =>
+        pure (if Itv.div2Ok x y o1 o2 then (if (Itv.div2G Rnd.dbl x y).length == 2 then "ok two-pieces" else "ok one-piece")
+              else "FAIL quotient-piece-not-enclosed")
+      | _, _ => pure "FAIL impl-bound-not-a-number"
+    | _, _ => none
+  | "div2i" =>
+    match ins, outs with
+    | [x, y, z0], [o1, o2] => do
+      let x ← parseItv x; let y ← parseItv y; let z0 ← parseItv z0
+      match parseItv o1, parseItv o2 with
+      | some o1, some o2 =>
+        let ok := o1.WF && o2.WF && Itv.subset o1 z0 && Itv.subset o2 z0 &&
+          (Itv.div2G Rnd.dbl x y).all fun p => let q := Itv.inter z0 p; Itv.subset q o1 || Itv.subset q o2
+        pure (if ok then "ok div2-inter" else "FAIL quotient-piece-not-enclosed")
+      | _, _ => pure "FAIL impl-bound-not-a-number"
+    | _, _ => none
+  | "roundmode" => some "FAIL rounding-mode-not-upward-after-call"
   -- C16: set algebra, exact
   | "inter" => binEq (fun x y => showItv (Itv.inter x y)) ins outs
   | "hull" => binEq (fun x y => showItv (Itv.hull x y)) ins outs
